@@ -192,6 +192,20 @@ def run_subprocess(args, cwd, repo=None):
     return p.returncode, p.stdout.decode("utf-8", "replace"), p.stderr.decode("utf-8", "replace"), []
 
 
+def run_subprocess_closed_stdout(args, cwd, repo=None):
+    """the program's standard output is a pipe whose reader is already gone: nothing can be delivered"""
+    from .core import REPO
+    env = dict(os.environ, PYTHONPATH=repo or REPO, PYTHONDONTWRITEBYTECODE="1")
+    r, w = os.pipe()
+    os.close(r)
+    try:
+        p = subprocess.run(["/venv/bin/python", "-m", "btc_hd_wallet"] + list(args), cwd=cwd, env=env, stdout=w,
+                           stderr=subprocess.PIPE, timeout=300)
+    finally:
+        os.close(w)
+    return p.returncode, "", p.stderr.decode("utf-8", "replace"), []
+
+
 def spec_filter(data):
     """the paranoia whitelist as PaperWallet.tla states it"""
     return {k: {"account_extended_keys": {"path": v["account_extended_keys"]["path"], "pub": v["account_extended_keys"]["pub"]},
@@ -230,7 +244,8 @@ def observe(vec, mode, password=None):
     try:
         before = snapshot(d)
         args = argv_of(vec, password)
-        code, out, err, opened = (run_inprocess if mode == "inprocess" else run_subprocess)(args, d)
+        code, out, err, opened = (run_inprocess if mode == "inprocess" else run_subprocess_closed_stdout if mode == "closedpipe"
+                                  else run_subprocess)(args, d)
         after = snapshot(d)
         created = sorted(set(after) - set(before))
         changed = [k for k in before if k in after and after[k] != before[k]]
